@@ -329,9 +329,9 @@ class FilterbankBlock(BaseBlock):
         dm_arr = dm + np.linspace(-dm, dm, dmsteps)
         dm_delays = self.header.get_dmdelays(dm_arr, ref_freq=ref_freq)
         if only_valid_samples:
-            new_ar = kernels.dmt_block_valid(self.data, dm_delays)
+            new_ar = kernels.dmt_block_valid(self.data, -dm_delays)
         else:
-            new_ar = kernels.dmt_block(self.data, dm_delays)
+            new_ar = kernels.dmt_block(self.data, -dm_delays)
         return DMTBlock(
             new_ar,
             self.header.new_header({"nchans": 1, "nsamples": new_ar.shape[1]}),
